@@ -16,9 +16,9 @@ tokenizer (redirect prefixes), so a simplification must not introduce them.
 
 Phase 1 takes a candidate iff it is strictly smaller in a well-founded order, CPython still accepts
 it and the real parser fails on it with the *same signature*.  When phase 1 is stuck on a *rejection*,
-phase 2 tries the context-preserving structural candidates (no statement-level hoists) once more,
-accepting any rejection - this folds e.g. `match*x<x` onto `match+x` and `@x+x` onto `@0`, whose
-parser errors are merely reported at different tokens - and phase 1 resumes with the new signature.
+phase 2 tries the purely deleting structural candidates (no statement-level hoists, no new leaves)
+once more, accepting any rejection - this folds e.g. `match*x<x` onto `match+x`, whose parser errors
+are merely reported at different tokens - and phase 1 resumes with the new signature.
 Wrong-tree and compile failures never change signature (their signature is already positional).  First improvement wins
 and the search restarts from it, so the result is a pure function of (text, mode, signature)."""
 
@@ -134,8 +134,13 @@ _KW_OPS = ("and", "or", "in", "is")
 
 
 def tree_candidates(text, mode, hoist_to_stmt=True):
-    """Structural shrink candidates, outermost first.  With hoist_to_stmt=False the candidates that
-    move an expression into a new statement context are left out (phase 2)."""
+    """Structural shrink candidates, outermost first.  With hoist_to_stmt=False (phase 2) the
+    candidates that move an expression into a new statement context, and those that put a *new*
+    expression leaf (`x`, `0`, `()`) in place of a sub-tree, are left out: what remains only deletes
+    material (child over parent, block over compound statement, `pass` / `_` / `if x:` for a whole
+    statement / pattern / header, simplest operator), so a failure of the candidate stems from
+    something the input already contained - never from a known-bug trigger the shrink step itself
+    introduced (`x, *y = z` must not be explained by `() = z`)."""
     src = rw.Src(text)
     tree = _cpy(text, mode)
     rows = src.rows
@@ -212,7 +217,7 @@ def tree_candidates(text, mode, hoist_to_stmt=True):
                 continue
             s, e = src.span(n)
             cur = text[s:e]
-            for simple in (NAME0, NUM0, "()"):
+            for simple in (NAME0, NUM0, "()") if hoist_to_stmt else ():
                 if cur != simple:
                     yield text[:s] + simple + text[e:]
             for ch in ast.iter_child_nodes(n):
